@@ -221,6 +221,8 @@ def oracle_gen(rep, case, out):
     lo, hi = O.fl(case['min']), O.fl(case['max'])
     if not all(lo * (1 - 1e-12) <= x < hi * (1 + 1e-12) for x in w):
         rep.oracle_fail('gen:range', 'point outside [min, max)', case, out)
+    if case.get('exact_steps') and any(x >= hi for x in w):
+        rep.oracle_fail('gen:range:end_point_included', 'the grid reaches max (%r) although [min, max) is half-open' % hi, case, out)
     v = [math.log10(x) for x in w] if case['log'] else list(w)
     if case.get('delta') is None:
         if len(w) != case['num']:
@@ -300,6 +302,26 @@ def gen_waveset_case(rng, depth):
 
 
 def gen_gen(rng):
+    if rng.random() < 0.3:
+        # spans that are an exact whole number of steps (everything the code computes before deciding the count is
+        # exact in binary64): the half-open end is decided without rounding
+        log = rng.random() < 0.5
+        m = rng.choice([1, 2, 4, 8, 16, 40])
+        if log:
+            lo = float(rng.choice([1, 10, 100, 1000]))
+            dec = rng.choice([1, 2])
+            hi = lo * 10 ** dec
+            delta = F(dec, m)
+            if delta.denominator & (delta.denominator - 1):      # keep the step dyadic
+                delta = F(dec, 8)
+        else:
+            lo = float(O.dy(rng, 500, 5000, 2))
+            delta = O.dy(rng, 1, 300, 3)
+            hi = lo + float(delta) * m
+        c = {'op': 'gen_waves', 'min': q(lo), 'max': q(hi), 'num': 10, 'log': log, 'delta': q(delta), 'exact_steps': True}
+        if rng.random() < 0.2:
+            c['min'], c['max'] = c['max'], c['max']          # empty request: min == max
+        return c
     log = rng.random() < 0.5
     lo = float(rng.choice([500, 1000, 1, 10, 2000.5]))
     hi = lo * rng.choice([2, 10, 52, 1.5])
